@@ -375,6 +375,8 @@ def single_oracle(case, rec):
     if kind[0] == 'invalid':
         return None
     if rec['raised'] is not None:
+        if kind[0] == 'notif':
+            return 'c02:notification-answered', f'{rec["raised"]} emitted for a notification'
         return 'c02:valid-request-rejected', f'{rec["raised"]}'
     if kind[0] == 'notif':
         if rec['items'] != ['n'] or rec['reply'] is not None or rec.get('extra'):
@@ -758,8 +760,9 @@ def random_case(rng, jr):
     unenc = [m for m in reqs if rng.random() < 0.1]
     lim = list(limits_for(jr, proto, [p if isinstance(p, dict) else {} for p in members], order, errs, True))
     mx = rng.choice(lim + [rng.randint(1, 400)])
+    nerrs = [m for m, k in enumerate(kinds) if k[0] == 'notif' and rng.random() < 0.3]
     return {'proto': proto, 'max': mx, 'members': members, 'order': order, 'errs': errs,
-            'unenc': unenc}
+            'unenc': unenc, 'nerrs': nerrs}
 
 
 def parse_corpus_line(line):
